@@ -34,7 +34,8 @@ function that calls it, so that the bridging lemma stops type-checking):
   statements   docstring, pass, x = e, o.a = e, setattr(o, NAME, e), d[k] = e and d.update(e) on a dict the
                function made itself and that no other live local aliases, return [e], raise Exc(...) (the message
                is not evaluated), if/elif/else, continue, break, for x in e / for k, v in e.items() / ... (no else
-               clause), an expression statement that is a call, def inner(...) (decorator functools.wraps only)
+               clause), an expression statement that calls a translated function or delegates to super(),
+               def inner(...) (decorator functools.wraps only)
   expressions  locals, None/True/False/int/str constants, [] {} [a, b], classes of the package, string constants
                imported from the package, getattr(o, NAME[, d]), hasattr(o, NAME), o.attr, o.__class__, len(e),
                e[i], e1 if c else e2, and/or/not, ==, != < <= > >=, in / not in, NAME in o.__dict__,
@@ -865,6 +866,13 @@ class Tr:
                 t = self.fresh()
                 return self.seq(b + [(t, "PyOpsSchema.py_dict_update %s %s" % (self.env[name], a))],
                                 self.bind_local(name, t, nxt))
+            # a call made for its effect: only of a translated function (its effects are threaded) or the
+            # super() delegation; the effects of code outside are not modelled, so such a statement is refused
+            is_super = (isinstance(v.func, ast.Attribute) and isinstance(v.func.value, ast.Call)
+                        and isinstance(v.func.value.func, ast.Name) and v.func.value.func.id == "super")
+            is_ours = isinstance(v.func, ast.Name) and v.func.id not in self.env and v.func.id in self.gen.fn_by_name
+            if not (is_super or is_ours):
+                raise Unsupported("a call made for its effect on code outside the file: %s" % ast.unparse(v)[:60])
             h0 = self.heap
             b, _ = self.val_top(v)
             try:
